@@ -1,11 +1,37 @@
-(** Property C07 — statements only. Each theorem is closed by [exact] of a lemma
-    proved elsewhere and followed by [Print Assumptions]. *)
-From CR Require Import Base Atomic Machine LinksFacts HeapFacts TraceFacts Local.
+(** Property C07 — without adoptions, behaves exactly like std::rc. *)
+From Coq Require Import Permutation.
+From CR Require Import Base Atomic Machine LinksFacts HeapFacts TraceFacts TraceTotal Local StackBound
+  Termination Perm StdRc StdRefine Tokens InvDef InvLemmas ActBase ActHandles ActAdopt ActMove ActConsume
+  StepFrames StepPanic Purge GroupOps DropDec Group DropLast StepInv RunInv Consequences Common.
 Local Open Scope N_scope.
 
-Theorem C07_clone_no_table_partial :
-  forall s self hr dst s' self' r fr,
-  exec_act s self (AClone hr dst) = AO s' self' r fr -> log s' = log s /\ fr = [].
-Proof. exact clone_no_trace. Qed.
-Print Assumptions C07_clone_no_table_partial.
+(** for every adoption-free history (scripts and panics included, the whole
+    modelled API): the machine of Model/Machine.v and the specification StdRc
+    (Proofs/StdRc.v: no sentinel, no tables) produce the same outcomes, the
+    same destructor sequence and corresponding states *)
+Theorem C07_refines_std :
+  forall fuel h, noadopt_history h ->
+  let '(s, rs) := run_history fuel init_state h in
+  s_run_history fuel s_init_state (map fst h) =
+    (smk (abs_heap (heap_of s)) (regs s) (filter keep_ev (log s)), rs).
+Proof. exact noadopt_is_std_exact. Qed.
+Print Assumptions C07_refines_std.
 
+(** the adoption machinery is never entered: drop is std's drop *)
+Theorem C07_drop_is_std_drop :
+  forall pri s o, no_records (heap_of s) -> StdRefine.live_has_table (heap_of s) ->
+  drop_strong pri s o = std_drop_strong s o.
+Proof. exact drop_strong_fast. Qed.
+Print Assumptions C07_drop_is_std_drop.
+
+Theorem C07_never_traces :
+  forall fuel h, noadopt_history h ->
+  cyc_events (log (fst (run_history fuel init_state h))) = [] /\
+  traces (log (fst (run_history fuel init_state h))) = [].
+Proof. exact noadopt_program_never_traces. Qed.
+Print Assumptions C07_never_traces.
+
+Theorem C07_oracle_free :
+  forall pri pri' c, cfg_noadopt c -> step pri c = step pri' c.
+Proof. exact step_oracle_free. Qed.
+Print Assumptions C07_oracle_free.
